@@ -1,0 +1,14 @@
+//go:build verif
+
+package softspoken
+
+// Contracts for the deductive checker in /verif (comment-only; compiled only under the verif tag).
+
+// Randomness provenance (C07): the sigma blinding bits appended to the receiver's choice vector are exactly the
+// SigmaBytes bytes read IN FULL from the receiver's own reader at its entry state (a short read may not leave a
+// constant tail), and they are what is appended to the repeated choices.
+//@ func (*Receiver).Round1
+//@   property C07
+//@   uses reader
+//@   ensures err == nil ==> bytesEq(sigmaBits, squeeze(old(shk(r.prng)), SigmaBytes)) && len(sigmaBits) == SigmaBytes
+//@   ensures r.prng == old(r.prng)
